@@ -23,13 +23,17 @@ const modPath = "github.com/at-wat/mqtt-go"
 
 // Ctx is the resolved program: type-checked syntax + SSA of package mqtt, plus derived indexes.
 type Ctx struct {
-	Dir   string
-	Fset  *token.FileSet
-	PP    *packages.Package
-	Prog  *ssa.Program
-	Pkg   *ssa.Package
-	TPkg  *types.Package
-	Funcs []*ssa.Function // every function of the package: functions, methods, closures (source order)
+	Dir              string
+	Fset             *token.FileSet
+	PP               *packages.Package
+	Prog             *ssa.Program
+	Pkg              *ssa.Package
+	TPkg             *types.Package
+	Funcs            []*ssa.Function // every function of the package: functions, methods, closures (source order)
+	globalConst      map[*ssa.Global]ssa.Value
+	constructedCache map[*ssa.UnOp]ssa.Value
+	constructedBool  map[string]bool
+	fieldStored      map[string]bool // "T#k": some instruction of the package stores into field k of T
 
 	makeClosures map[*ssa.Function][]*ssa.MakeClosure // closure fn -> creation sites
 	cellStores   map[*ssa.Alloc][]*ssa.Store          // alloc -> every store whose address resolves to it
@@ -270,7 +274,18 @@ func (c *Ctx) resolve(v ssa.Value, seen map[ssa.Value]bool) ssa.Value {
 			if x.Op != token.MUL {
 				return v
 			}
+			if g, isG := x.X.(*ssa.Global); isG {
+				if r := c.constGlobal(g); r != nil {
+					v = r
+					continue
+				}
+				return v
+			}
 			if fa, isFA := x.X.(*ssa.FieldAddr); isFA {
+				if r := c.constructedFieldValue(x); r != nil {
+					v = r
+					continue
+				}
 				if r := c.immutableFieldLoad(x, fa, seen); r != nil && r != v {
 					v = r
 					continue
@@ -625,6 +640,9 @@ func isStdCall(cc *ssa.CallCommon, pkg, name string) bool {
 		return m.Pkg() != nil && m.Pkg().Path() == pkg && m.Name() == name
 	}
 	f := cc.StaticCallee()
+	if f == nil && curCtx != nil {
+		f = curCtx.StaticCalleeOf(cc) // through a function-valued variable that only ever holds this function
+	}
 	if f == nil || f.Pkg == nil || f.Pkg.Pkg.Path() != pkg {
 		// method of a std type may have Pkg set; function with nil Pkg -> synthetic
 		if f == nil || f.Object() == nil || f.Object().Pkg() == nil || f.Object().Pkg().Path() != pkg {
@@ -1112,6 +1130,16 @@ func (c *Ctx) immutableFieldLoad(ld *ssa.UnOp, fa *ssa.FieldAddr, seen map[ssa.V
 	if !c.fieldImmutable(named, fa.Field) {
 		return nil
 	}
+	// an unexported field nothing in the package ever assigns (a hook or seam that only a test sets) holds its zero value
+	if st, isStruct := named.Underlying().(*types.Struct); isStruct && fa.Field < st.NumFields() {
+		fld := st.Field(fa.Field)
+		if !fld.Exported() && !c.fieldStored[fmt.Sprintf("%s#%d", named.String(), fa.Field)] {
+			switch fld.Type().Underlying().(type) {
+			case *types.Pointer, *types.Signature, *types.Interface, *types.Slice, *types.Map, *types.Chan:
+				return ssa.NewConst(nil, fld.Type())
+			}
+		}
+	}
 	s2 := map[ssa.Value]bool{}
 	for k := range seen {
 		s2[k] = true
@@ -1171,6 +1199,8 @@ func (c *Ctx) fieldImmutable(named *types.Named, k int) bool {
 	if c.immutCache == nil {
 		c.immutCache = map[string]bool{}
 		mutable := map[string]bool{}
+		stored := map[string]bool{}
+		c.fieldStored = stored
 		key := func(t types.Type, i int) string { return fmt.Sprintf("%s#%d", t.String(), i) }
 		for _, f := range c.Funcs {
 			eachInstr(f, func(in ssa.Instruction) {
@@ -1189,6 +1219,7 @@ func (c *Ctx) fieldImmutable(named *types.Named, k int) bool {
 						switch y := u.(type) {
 						case *ssa.Store:
 							if y.Addr == ssa.Value(x) {
+								stored[key(nt, x.Field)] = true
 								if !fresh {
 									mutable[key(nt, x.Field)] = true
 								}
@@ -1344,4 +1375,81 @@ func cachedNormalize(dir, goarch string, tags []string) (map[string][]byte, []st
 		}
 	}
 	return overlay, notes
+}
+
+// constGlobal: the value of a package-level variable of the library that is only ever loaded — assigned at most once, by
+// its own initialiser, and never having its address taken (`var timeNow = time.Now`, a hook that is nil unless a test sets
+// it). Such a variable is a constant of the library as shipped; nil if g is not of this kind.
+func (c *Ctx) constGlobal(g *ssa.Global) ssa.Value {
+	if g.Pkg != c.Pkg {
+		return nil
+	}
+	if c.globalConst == nil {
+		c.globalConst = map[*ssa.Global]ssa.Value{}
+		type info struct {
+			stores []*ssa.Store
+			other  bool
+		}
+		inf := map[*ssa.Global]*info{}
+		get := func(g *ssa.Global) *info {
+			if inf[g] == nil {
+				inf[g] = &info{}
+			}
+			return inf[g]
+		}
+		for _, f := range c.Funcs {
+			for _, b := range f.Blocks {
+				for _, in := range b.Instrs {
+					var ops [12]*ssa.Value
+					for _, op := range in.Operands(ops[:0]) {
+						gg, ok := (*op).(*ssa.Global)
+						if !ok || gg.Pkg != c.Pkg {
+							continue
+						}
+						switch x := in.(type) {
+						case *ssa.UnOp:
+							if x.Op == token.MUL {
+								continue
+							}
+						case *ssa.Store:
+							if x.Addr == ssa.Value(gg) && x.Val != ssa.Value(gg) {
+								get(gg).stores = append(get(gg).stores, x)
+								continue
+							}
+						case *ssa.DebugRef:
+							continue
+						}
+						get(gg).other = true
+					}
+				}
+			}
+		}
+		for _, m := range c.Pkg.Members {
+			gg, ok := m.(*ssa.Global)
+			if !ok {
+				continue
+			}
+			i := get(gg)
+			if i.other || len(i.stores) > 1 {
+				continue
+			}
+			elem := gg.Type().(*types.Pointer).Elem()
+			if len(i.stores) == 0 {
+				switch elem.Underlying().(type) {
+				case *types.Pointer, *types.Signature, *types.Interface, *types.Slice, *types.Map, *types.Chan:
+					c.globalConst[gg] = ssa.NewConst(nil, elem)
+				}
+				continue
+			}
+			st := i.stores[0]
+			if fn := st.Parent(); fn == nil || fn.Name() != "init" || fn.Synthetic == "" {
+				continue
+			}
+			switch st.Val.(type) {
+			case *ssa.Function, *ssa.Const:
+				c.globalConst[gg] = st.Val
+			}
+		}
+	}
+	return c.globalConst[g]
 }
